@@ -212,6 +212,8 @@ func stLayouts(thorough bool) []model.Layout {
 			out = append(out, model.Layout{NL: "\n", Multi: multi, Quote: q})
 		}
 	}
+	// one annotation written as two
+	out = append(out, model.Layout{NL: "\n", Split: 1}, model.Layout{NL: "\n", Split: 2, Quote: 1}, model.Layout{NL: "\r\n", Split: 2, Pad: 1}, model.Layout{NL: "\r", Split: 1, Quote: 4})
 	// padding that ends in a tab, with each annotation style
 	out = append(out, model.Layout{NL: "\n", Multi: 0, Pad: 3}, model.Layout{NL: "\n", Multi: 1, Pad: 4, Quote: 4}, model.Layout{NL: "\r\n", Multi: 2, Pad: 3, Quote: 1})
 	if thorough {
